@@ -516,6 +516,26 @@ class Package:
         ast.fix_missing_locations(new)
         return new
 
+    def module_function(self, file: str, name: str):
+        """module-level function `name` of `file` in the form value-based rules read it (None if there is none): reads of module-level
+        constant tables written in place (with_module_constants) and static loops over them unrolled -- `x.upper() in _NO_LIMIT` /
+        `for op in _OPERATORS: v = v.replace(op, "")` then read as they do with the tables written inside the function."""
+        import copy
+        f = self.functions.get((file, name))
+        if f is None:
+            return None
+        cache = self.__dict__.setdefault("_modfn", {})
+        if (file, name) not in cache:
+            g = copy.deepcopy(f)
+            try:
+                from .normalize import unroll_static_loops
+                g = self.with_module_constants(file, g)
+                unroll_static_loops(g, self.module_tables(file))
+            except RecursionError:
+                g = f
+            cache[(file, name)] = g
+        return cache[(file, name)]
+
     def folded(self, cls: str, meth: str, keep=(), expand: bool = True) -> ast.FunctionDef:
         """A copy of method `cls.meth` in the form value-based rules read: extracted helpers put back (`expanded`, unless
         expand=False), class-level constants written in place, and the literal part evaluated (normalize.fold_static: static loops
